@@ -91,7 +91,8 @@ theorem recvChunk_spec (c : Cfg) (st st' : State) (h : step c st .recvChunk = so
     (chunkOut c st = some .chunkEnd → st'.delivered = st.delivered ++ [acc] ∧ st'.partialMsg = none) ∧
     (chunkOut c st = some .cancelled → st'.delivered = st.delivered ∧ st'.partialMsg = none) ∧
     (chunkOut c st = some .eos → st'.delivered = st.delivered ∧ st'.partialMsg = none) ∧
-    (chunkOut c st = none → st'.delivered = st.delivered ∧ st'.partialMsg = some acc) := by
+    ((∀ d, chunkOut c st ≠ some (.chunk d)) → chunkOut c st ≠ some .chunkEnd → chunkOut c st ≠ some .cancelled →
+      chunkOut c st ≠ some .eos → st'.delivered = st.delivered ∧ st'.partialMsg = some acc) := by
   simp only [step] at h
   split at h
   · simp at h
